@@ -56,6 +56,11 @@ MODULES = {
 }
 
 
+# the thorough tier of cheap checks is deepened to roughly five minutes on 16 cores (factor on every engine's thorough case count)
+THOROUGH_SCALE = {"C03": 3, "C04": 8, "C05": 4, "C06": 2, "C07": 4, "C08": 3, "C09": 2, "C11": 2, "C12": 4, "C13": 5, "C14": 10,
+                  "C16": 10, "C17": 8, "C18": 2, "C19": 2}
+
+
 class HarnessError(Exception):
     pass
 
@@ -392,7 +397,7 @@ def run_check(prop, tier, seed, args):
 
     units = []
     for e in engines:
-        scale = args.cases or 1.0
+        scale = args.cases or (THOROUGH_SCALE.get(prop, 1.0) if tier == "thorough" else 1.0)
         if e.strategy is not None and e.cases.get(tier, 100) > 0:
             k = max(1, int(e.shards.get(tier, 1)))
             n = max(1, int(e.cases.get(tier, 100) * scale))
